@@ -82,7 +82,10 @@ def merge(reports):
 
 
 def write_evidence(pid, tier, seed, mod, m, wall, verdict, known_hit, extra_assumptions=()):
-    os.makedirs(os.path.join(core.VERIF, "evidence"), exist_ok=True)
+    evdir = os.environ.get("PV_EVIDENCE_DIR") or os.path.join(core.VERIF, "evidence")
+    if os.path.abspath(os.environ.get("PV_REPO", "/repo")) != "/repo" and not os.environ.get("PV_EVIDENCE_DIR"):
+        evdir = os.path.join(core.VERIF, ".work", "evidence_scratch")    # runs against scratch trees are not evidence for /repo
+    os.makedirs(evdir, exist_ok=True)
     cov = {
         "evaluations": m["evals"],
         "distinct_nontrivial": m["distinct"],
@@ -112,7 +115,7 @@ def write_evidence(pid, tier, seed, mod, m, wall, verdict, known_hit, extra_assu
         "wall_s": round(wall, 2),
         "violations": m["violation_count"] - sum(k["count"] for k in known_hit),
     }
-    path = os.path.join(core.VERIF, "evidence", pid + ".json")
+    path = os.path.join(evdir, pid + ".json")
     tmp = path + ".tmp"
     json.dump(ev, open(tmp, "w"), indent=1, sort_keys=False)
     os.replace(tmp, path)
@@ -121,6 +124,8 @@ def write_evidence(pid, tier, seed, mod, m, wall, verdict, known_hit, extra_assu
 
 def write_replay(pid, v):
     d = os.path.join(core.VERIF, "replays", pid)
+    if os.path.abspath(os.environ.get("PV_REPO", "/repo")) != "/repo":
+        d = os.path.join(core.VERIF, ".work", "replays_scratch", pid)
     os.makedirs(d, exist_ok=True)
     blob = json.dumps(v, sort_keys=True)
     h = hashlib.sha256(blob.encode()).hexdigest()[:16]
@@ -184,6 +189,19 @@ def main(argv=None):
     m = merge(reports)
     m["notes"]["model_selftests_passed"] = ran
 
+    # violations reported by monitors outside this property's scope are kept as information only
+    scope = getattr(mod, "SCOPE", None)
+    out_of_scope = collections.Counter()
+    if scope is not None:
+        for key in list(m["vkeys"]):
+            mon = json.loads(key)[0]
+            if not any(mon == s or mon.startswith(s) for s in scope):
+                n = m["vkeys"].pop(key)
+                out_of_scope[mon] += n
+                m["violation_count"] -= n
+        m["violations"] = [v for v in m["violations"] if v["key"] in m["vkeys"]]
+    m["notes"]["out_of_scope_monitor_reports"] = dict(out_of_scope)
+
     # classify violations
     kf = findings.load()
     known_hit, unknown = findings.classify(pid, m["violations"], m["vkeys"], kf)
@@ -210,6 +228,8 @@ def main(argv=None):
     wall = time.time() - t0
     write_evidence(pid, tier, seed, mod, m, wall, verdict, known_hit)
 
+    for mon, n in sorted(out_of_scope.items()):
+        print("NOTE: %d report(s) from monitor %s, which does not decide %s (see the property that monitor serves)" % (n, mon, pid))
     for k in known_hit:
         print("KNOWN-FINDING: property=%s %s (observed %d times this run)" % (pid, k["line"], k["count"]))
     print("%s tier=%s seed=%d evaluations=%d distinct_nontrivial=%d shards=%d wall=%.1fs" % (
